@@ -359,6 +359,17 @@ extern GetExprBridge
   props C04 C20 C05 C06 C13
   option pure
 
+// the last resort of the bridge: operands are glued together as text only when one of them IS text (a quoted literal or
+// a column holding text); NULL + 8 is not "8" -- it is left to the caller's NULL-aware engine
+func (*ExprBridge).fallbackToCustomExpr
+  props C03 C04 C20 C05 C06 C13
+  option assumed_frame
+  observe isCat := isStringConcatenationExpression
+  count asked := isStringConcatenationExpression
+  before isStringConcatenationExpression the-question-is-about-this-expression-and-this-row: $arg1 == expression && $arg2 == data
+  before evaluateStringConcatenation operands-none-of-which-is-text-are-never-concatenated: $asked == 1 && $isCat && $arg1 == expression && $arg2 == data
+  before evaluateSimpleNumericExpression the-numeric-reading-is-of-this-expression-on-this-row: $arg1 == expression && $arg2 == data
+
 func (*ExprBridge).EvaluateExpression
   props C04 C20 C05 C06 C13
   option assumed_frame
